@@ -81,6 +81,21 @@ def handler(payload):
                 kw["chunksize"] = job["chunksize"]
             res = capture(lambda: matout(ck.correlation(sem, act, sm, ss, am, as_, **kw)))
         elif kind == "wrapper":
+            # history: the SAME array objects were correlated before with other contents and changed in place since
+            # (whatever a call remembers about an array must not survive a change of its contents)
+            for prev in job.get("earlier") or []:
+                keep_s, keep_a = sem.copy(), act.copy()
+                sem[...] = np.array(prev["sem"], dtype=float).reshape(sem.shape) if prev.get("sem") is not None else sem
+                act[...] = np.array(prev["act"], dtype=float).reshape(act.shape) if prev.get("act") is not None else act
+                try:
+                    with warnings.catch_warnings():
+                        warnings.simplefilter("ignore")
+                        corr.correlation(sem, act, allow_nan=True)
+                except Exception:
+                    pass
+                sem[...] = keep_s
+                act[...] = keep_a
+
             def go():
                 with warnings.catch_warnings():
                     warnings.simplefilter("ignore")
